@@ -28,7 +28,7 @@ ASSUMPTIONS = [
     "a default config file that is not a readable regular file, or is empty, contributes nothing; the others still apply",
     "JSONARGPARSE_DEFAULT_ENV is read when the parser is constructed (documented); individual variables when it parses",
 ]
-PROBES = ["append-key-in-config", "dcf-file-reached-twice", "glob-multi", "glob-unsorted-listing", "dcf-nonfile-match", "dcf-unreadable-match", "dcf-empty-file", "env-on", "env-off-with-vars", "same-key-3-sources", "append", "dict-item", "cfg-on-argv", "env-skew"]
+PROBES = ["history-before-parse", "default-config-edited-after-history", "append-key-in-config", "dcf-file-reached-twice", "glob-multi", "glob-unsorted-listing", "dcf-nonfile-match", "dcf-unreadable-match", "dcf-empty-file", "env-on", "env-off-with-vars", "same-key-3-sources", "append", "dict-item", "cfg-on-argv", "env-skew"]
 ANCHOR_FILES = ("_core", "_actions", "_namespace", "_typehints", "_formatters")
 NO_SHRINK = ("world/dirs", "world/cwd", "parser", "parser/*")
 SHRINK_DICTS = ("world/files", "world/env", "world/symlinks", "env_build", "direct")
@@ -211,6 +211,17 @@ def generate(rng, tier):
         "faults": [],
         "tier": tier,
     }
+    # history: calls made on the same parser BEFORE the judged parse (their outcome is not judged), optionally
+    # followed by an edit of the default config files -- the final values must follow the sources as they are
+    # when the judged parse runs, not as they were when help was printed or defaults were computed earlier
+    sc["prelude"] = []
+    sc["world_edit"] = []
+    if r.random() < 0.25:
+        sc["prelude"] = [r.choice(PRELUDE) for _ in range(r.randint(1, 2))]
+        lit = sorted(f for f, v in files.items() if f.startswith("dc/") and isinstance(v, str))
+        if lit and r.random() < 0.6:
+            for f in r.sample(lit, min(len(lit), r.randint(1, 2))):
+                sc["world_edit"].append({"path": f, "text": None if r.random() < 0.4 else json.dumps(doc(r, rnd_settings(r, hot)))})
     return sc
 
 
@@ -467,6 +478,27 @@ def run_method(p, sc):
     return p.parse_args(list(sc["argv"]), **kw)
 
 
+PRELUDE = ["help", "help", "defaults", "parse_empty", "parse_fail", "dump", "print_config", "help_flag"]
+
+
+def run_prelude(p, name):
+    if name == "help":
+        return p.format_help()
+    if name == "defaults":
+        return p.get_defaults()
+    if name == "parse_empty":
+        return p.parse_args([])
+    if name == "parse_fail":
+        return p.parse_args(["--a=bad"])
+    if name == "dump":
+        return p.dump(p.get_defaults())
+    if name == "print_config":
+        return p.parse_args(["--print_config"])
+    if name == "help_flag":
+        return p.parse_args(["--help"])
+    raise ValueError(name)
+
+
 def key_kind(k):
     t = KEYS[k][0]
     return ("nested-" if "." in k else "flat-") + ("list" if t.startswith("list") else "dict" if t.startswith("dict") else "scalar")
@@ -486,6 +518,21 @@ def execute(sc, ctx):
         for k in sc["env_build"]:
             os.environ.pop(k, None)
     os.environ.update(sc["env"])
+    for name in sc.get("prelude", []):
+        run_op(lambda: run_prelude(p, name))
+        sim.probe("history-before-parse")
+    with rt.suspended():
+        for e in sc.get("world_edit", []):
+            fn = os.path.join(root, e["path"])
+            try:
+                if e["text"] is None:
+                    os.unlink(fn)
+                else:
+                    with open(fn, "w") as fh:
+                        fh.write(e["text"])
+                sim.probe("default-config-edited-after-history")
+            except OSError:
+                pass
     listing = []
     sim.begin_op(1, sc["method"])
     n_ev = len(sim.events)
